@@ -26,3 +26,8 @@ add('C07', 'ENUM', 'exploration',
     'handle_comments (privilege computation + both comment syntaxes + option/command phases) is run on every comment list of length <= 3 from a grammar of author classes x addressee forms x keyword lists x separators and compared with an oracle that works on the generator tuple; the no-escalation clause is asserted separately on every case.',
     'reset/force_reset handlers replaced by recorders; templates stubbed; outcomes the statement leaves open (tight separators, commands after unusual punctuation) are counted in the evidence, not judged.',
     'exhaustive input enumeration vs reference oracle', 'DESIGN.md section 5 C07')
+
+add('C09', 'ENUM', 'exploration',
+    'BranchCascade (build/add_branch/update_versions/finalize/validate) is run on every subset of a 15-branch universe x tag sets x destination, and on every discovery order, and compared with a reference computed from the statement (targets, ignored, fix versions, rejection of ill-formed cascades).',
+    'FakeRepo returns git branch / git tag text and answers ancestry positively (inclusion itself is C01); cases the statement leaves open are counted in the evidence.',
+    'exhaustive input enumeration vs reference oracle', 'DESIGN.md section 5 C09')
